@@ -23,10 +23,10 @@ type ugcSpec struct {
 	Skip      []string            `json:"default_skip_content"`
 	URLAttrs  map[string][]string `json:"url_attributes"`
 	Cmd       map[string]struct {
-		Base      string          `json:"base"`
-		Flags     map[string]bool `json:"extra_flags"`
-		Elements  []string        `json:"extra_elements"`
-		MustCall  []string        `json:"must_call"`
+		Base     string          `json:"base"`
+		Flags    map[string]bool `json:"extra_flags"`
+		Elements []string        `json:"extra_elements"`
+		MustCall []string        `json:"must_call"`
 	} `json:"cmd"`
 }
 
